@@ -16,6 +16,7 @@ tie:    harness/c04_shapes.cc, ONE templated harness instantiated for BD_Shape /
         the claim is antitone (subtrahend of difference_assign, container of contains()).
 """
 from . import wr_common as w
+from . import c03_trans
 LEVEL = "proof"
 
 
@@ -27,6 +28,7 @@ def run(ctx):
         broken += ctx.leanchecker(["PPLV.Props.C03"])
     w.run_shapes(ctx, "c03", w.ALL_TYPES, n_hist=150 if quick else 2500, length=12 if quick else 25,
                  maxdim=3 if quick else 4)
+    broken += c03_trans.run(ctx)           # stage 3: the sign-case transformers (proof + exact correspondence + K1 judge)
     for b in broken:
         ctx.violation("proof obligation broken: " + b, {"obligation": b}, found_input=False)
     ctx.assumptions += [
@@ -41,5 +43,7 @@ def run(ctx):
 def replay(ctx, path):
     """bin/check C03 --replay <file>: re-execute the recorded history against the current tree and judge it again"""
     ctx.ensure_ppl()
+    if c03_trans.is_replay(path):
+        return c03_trans.replay(ctx, path)
     w.run_replay(ctx, "c03")
     return 1 if ctx.violations else 0
